@@ -7,6 +7,7 @@
 import FlacModel.Model.Decode
 import FlacModel.Model.Metadata
 import FlacModel.Model.Md5
+import FlacModel.Gen.ShapesRd
 
 namespace Flac
 
